@@ -15,11 +15,15 @@
 (*    tolerance); where a comparison is within rounding of its threshold    *)
 (*    both outcomes are admitted and the spec branches.                     *)
 (***************************************************************************)
-EXTENDS Indicators, NumSubjects, TLC, Json, IOUtils
+EXTENDS Indicators, NumSubjects, Ranges, TLC, Json, IOUtils
+
+CONSTANTS CHECK_VALUES,     \* C05: raw values against the formulas
+          CHECK_SIGNALS,    \* C06: signals against their rules (from the logged values)
+          CHECK_RANGES      \* C12: documented ranges / orderings of the logged values
 
 Rec == ndJsonDeserialize(IOEnv.TRACE)
-VARIABLES l, name, cfg, st, sg, t, P, V, K, live
-vars == <<l, name, cfg, st, sg, t, P, V, K, live>>
+VARIABLES l, name, cfg, st, sg, t, P, V, K, live, mute
+vars == <<l, name, cfg, st, sg, t, P, V, K, live, mute>>
 E == Rec[l]
 IsNum(j) == "s" \in DOMAIN j
 Fx(j) == FxFromJson(j)
@@ -53,16 +57,16 @@ Accept(y, e, tt) ==
                                  ELSE IF FxLt(e.den, FxNeg(ad)) THEN IsNum(y) /\ FxEq(Fx(y), e.zero)
                                  ELSE TRUE
 
-Init == l = 1 /\ name = "" /\ cfg = <<>> /\ st = <<>> /\ sg = <<>> /\ t = 0 /\ P = FxZero /\ V = FxZero /\ K = 1 /\ live = FALSE
+Init == l = 1 /\ name = "" /\ cfg = <<>> /\ st = <<>> /\ sg = <<>> /\ t = 0 /\ P = FxZero /\ V = FxZero /\ K = 1 /\ live = FALSE /\ mute = FALSE
 
 TNew == /\ E.ev = "ind_new"
-        /\ E.valid = TRUE /\ E.res = "ok"               \* generated configurations are valid and must initialise
+        /\ E.valid = TRUE /\ E.res \in {"ok", "err"}    \* generated configurations are valid; whether every valid one initialises is C10's claim
         /\ LET c == Cn(E.c)  cf == CfgOf(E.cfg)
            IN  /\ name' = E.name /\ cfg' = cf
-               /\ st' = IF E.name \in SpecifiedValues THEN IInit(E.name, cf, c) ELSE <<>>
-               /\ sg' = IF E.name \in SpecifiedSignals THEN ISigInit(E.name, cf, c) ELSE <<>>
+               /\ st' = IF CHECK_VALUES /\ E.name \in SpecifiedValues THEN IInit(E.name, cf, c) ELSE <<>>
+               /\ sg' = IF CHECK_SIGNALS /\ E.name \in SpecifiedSignals THEN ISigInit(E.name, cf, c) ELSE <<>>
                /\ P' = CMag(c) /\ V' = FxAbs(c.v)
-        /\ t' = 0 /\ K' = E.k /\ live' = TRUE
+        /\ t' = 0 /\ K' = E.k /\ live' = (E.res = "ok") /\ mute' = FALSE
 
 TNext == /\ E.ev = "ind_next" /\ live
          /\ "panic" \notin DOMAIN E
@@ -72,23 +76,30 @@ TNext == /\ E.ev = "ind_next" /\ live
                 allnum == \A i \in 1..Len(E.v) : IsNum(E.v[i])
             IN  /\ P' = p2 /\ V' = v2
                 /\ E.size = E.cfgsize /\ Len(E.v) = E.size[1] /\ Len(E.s) = E.size[2]        \* C11: result shape
-                /\ IF name \in SpecifiedValues
+                /\ IF CHECK_VALUES /\ name \in SpecifiedValues
                    THEN \E r \in {IStep(name, cfg, st, c, p2, v2)} :
                            /\ st' = r.st
                            /\ Len(r.vals) = Len(E.v)
                            /\ \A i \in 1..Len(E.v) : Accept(E.v[i], r.vals[i], t + 1)
                    ELSE st' = st
-                /\ IF name \in SpecifiedSignals /\ allnum
+                \* a non-numeric value after the first step (0/0, or a radicand made negative by the residue of running sums) leaves
+                \* the signal machine, which is specified on defined values, without a defined state: the rest of the program is muted
+                /\ mute' = (mute \/ (~allnum /\ t >= 1))
+                /\ IF CHECK_SIGNALS /\ name \in SpecifiedSignals /\ allnum /\ ~mute
                    THEN \E a \in ISig(name, cfg, sg, c, [i \in 1..Len(E.v) |-> [x |-> Fx(E.v[i]), o |-> E.o[i]]]) :
                            /\ sg' = a.sg
                            /\ \A i \in 1..Len(E.s) : E.s[i] \in a.sigs[i]
                    ELSE sg' = sg
+                /\ CHECK_RANGES => RangeOK(name, cfg, c, E.v, E.raw_ma_kinds)
          /\ t' = t + 1 /\ UNCHANGED <<name, cfg, K, live>>
 
 Next == l <= Len(Rec) /\ (TNew \/ TNext) /\ l' = l + 1
 Spec == Init /\ [][Next]_vars
 
 \* with branching signal machines the trace is accepted iff SOME path consumes every event
+\* reaching the end of the trace ends the search at once (reported by TLC as a violation of NotDone = accepted);
+\* otherwise the postcondition reports the longest matched prefix
+NotDone == l <= Len(Rec)
 Matched == TLCGet("stats").diameter - 1
 TraceAccepted ==
     \/ Matched = Len(Rec)
